@@ -16,6 +16,7 @@ CONSTANTS
   Caps,        \* capacities of initial configurations (0 = none)
   Kinds,       \* stack kinds of initial configurations
   InitOpts,    \* set of initial option sets
+  InitMtx,     \* subset of BOOLEAN: is the mutex enabled in initial configurations
   Fams,        \* which call families are enabled
   OptFlags,    \* flags switched by the "opts" family
   PushLens,    \* lengths of Push batches
@@ -94,7 +95,7 @@ Calls(s) ==
   \cup (IF "query" \in Fams THEN {[op |-> "Front"], [op |-> "Back"]} \cup
                                  {[op |-> "Index", i |-> i] : i \in AllIdx(s)} ELSE {})
 
-InitStates == {[NewState(k, c) EXCEPT !.opts = o] : k \in Kinds, c \in Caps, o \in InitOpts}
+InitStates == {[NewState(k, c) EXCEPT !.opts = o, !.mtx = m] : k \in Kinds, c \in Caps, o \in InitOpts, m \in InitMtx}
           \cup (IF "life" \in Fams THEN {DeadState} ELSE {})
 
 DstStates == IF "transfer" \in Fams
